@@ -1069,6 +1069,32 @@ fn c06_comment_family(g: &Arc<Grammar>, d: usize, cfgs: &[Cfg], kinds: &'static 
     )
 }
 
+/// statements that are partly inside disabled regions: the formatted remainder must not depend on its layout
+fn c06_toggle_family(cfgs: &[Cfg], opts: fn() -> RelayoutOpts) -> Box<dyn Family> {
+    let items: Vec<String> = [
+        "begin\n  Bar({pasfmt off} a  ,  b {pasfmt on}, Alpha + Beta, Gamma * Delta, {pasfmt off} c {pasfmt on});\nend.",
+        "begin\n  x := {pasfmt off} a  +  b {pasfmt on} + Alpha + Beta * Gamma - {pasfmt off}  c {pasfmt on};\nend.",
+        "begin\n  Bar(Alpha, {pasfmt off} a , b {pasfmt on}, Gamma * Delta);\n  y := z;\nend.",
+        "begin\n  a := b + {pasfmt off} c; d := {pasfmt on} e + f * g;\n  h := i + j;\nend.",
+        "begin\n  if {pasfmt off} a  =  b {pasfmt on} and (c or d) and {pasfmt off} e {pasfmt on} then begin x := y; end;\nend.",
+        "type T = class\n  procedure M({pasfmt off} a : T {pasfmt on}; b, c: U; {pasfmt off} d:V {pasfmt on}); virtual; abstract;\nend;",
+        "{pasfmt off} unit  U ; {pasfmt on} interface uses A, B; implementation {pasfmt off} end . {pasfmt on}",
+        // the first and the last token of the statement lie in two different regions
+        "begin\n  {pasfmt off} Bar(a  , {pasfmt on} Alpha + Beta, Gamma * Delta, {pasfmt off} c)  ; {pasfmt on}\n  Baz;\nend.",
+        "procedure Foo;\nbegin\n  // pasfmt off\n  Bar(A,\n  // pasfmt on\n    Alpha + Beta, Gamma * Delta,\n  // pasfmt off\n    Z);\n  // pasfmt on\n  Baz;\nend;",
+        "begin\n  {pasfmt off} x  := {pasfmt on} Alpha + Beta * Gamma - Delta {pasfmt off} ; {pasfmt on}\n  if a then {pasfmt off} begin {pasfmt on} y := z + w; {pasfmt off} end ; {pasfmt on}\nend.",
+    ]
+    .iter()
+    .map(|s| s.to_string())
+    .collect();
+    tf(
+        "c06toggles",
+        Texts { name: "statements-partly-in-disabled-regions".into(), items },
+        cfgs,
+        Box::new(move |x, c, ctx| progs::c06_relayouts(x, c, &opts(), ctx)),
+    )
+}
+
 fn ro_singles() -> RelayoutOpts {
     RelayoutOpts { singles: true, pairs: false, all_assignments_upto: 0 }
 }
@@ -1263,6 +1289,7 @@ pub fn families(check: &str, tier: &str) -> Vec<Box<dyn Family>> {
                     sf("c06", &wf_seeds(), &C_QUICK[..2], Box::new(|s, c, ctx| progs::c06_relayouts(&s.text, c, &ro_singles(), ctx))),
                     c06_comment_family(&g(1), 1, &C_QUICK[1..2], &[0, 2], &[0, 1]),
                     deep_c06(&g(1), 1, 12, &C_QUICK[..3]),
+                    c06_toggle_family(&C_QUICK[..3], ro_deep),
                 ]
             } else {
                 vec![
@@ -1271,6 +1298,7 @@ pub fn families(check: &str, tier: &str) -> Vec<Box<dyn Family>> {
                     sf("c06", &wf_seeds(), &C_QUICK, Box::new(|s, c, ctx| progs::c06_relayouts(&s.text, c, &ro_mid(), ctx))),
                     c06_comment_family(&g(1), 1, &C_QUICK[..3], &[0, 1, 2, 3, 4, 5, 6], &[0, 1, 2]),
                     deep_c06(&g(1), 1, 24, &C_QUICK),
+                    c06_toggle_family(&C_QUICK, ro_deep),
                 ]
             }
         }
